@@ -398,15 +398,36 @@ func c26InfoJSON(info *ProxyInfo, err error) map[string]any {
 
 const c26RuleValid = "generated VALID headers (encoder written from the PROXY protocol spec): v1 TCP4/TCP6/UNKNOWN(with and without addresses); v2 LOCAL/PROXY x the seven legal family bytes (UNSPEC, TCP/UDP over IPv4, TCP/UDP over IPv6, UNIX stream/dgram) with 0-3 TLVs (up to 500 bytes each), followed by a trailing stream (empty, random 1..10000 bytes, a Kafka frame, something that looks like a second PROXY header, CRLFs), delivered by a net.Conn whose Read returns a prescribed chunking (whole, 1 byte at a time, (0,nil) reads, cuts exactly 1 before / at / 1 after the header end, fixed k, random; EOF alone or together with the last bytes; 1 in 8 through a real net.Pipe writer). Oracle: (a) err==nil; (b) when the header encodes IP endpoints (v1 TCP4/6, v2 PROXY INET/INET6): info non-nil, not Local, SourceIP/DestIP parse to the encoded IPs, ports equal, SourceAddr/DestAddr split into the same IP and port; (c) when it encodes none (UNKNOWN, LOCAL, UNSPEC): no address may be reported as proxied; UNIX: nothing or the socket path; (d) everything read from the wrapped conn (io.ReadAll or PRNG-sized reads) == the trailing bytes exactly; non-trivial = header crossed a read boundary and trailing bytes were non-empty"
 
+// replay support: bin/check C26 --replay <witness.json> re-runs exactly one case
+// (the witness names section, case index and seed; inputs are re-derived from them).
+var c26OnlySection, c26OnlyCase = "", -1
+
+func c26Skip(section string, ci int) bool {
+	return c26OnlyCase >= 0 && (section != c26OnlySection || ci != c26OnlyCase)
+}
+
+func c26N(section string, n int) int {
+	if c26OnlyCase >= 0 {
+		if section != c26OnlySection {
+			return 0
+		}
+		return c26OnlyCase + 1
+	}
+	return n
+}
+
 func c26Valid(r *verifkit.Run) {
-	n := r.N(6000, 150000)
+	n := c26N("valid", r.N(6000, 150000))
 	for ci := 0; ci < n; ci++ {
+		if c26Skip("valid", ci) {
+			continue
+		}
 		rng := r.Rand(ci)
 		h := c26GenHeader(rng)
 		trail := c26Trailing(rng)
 		stream := append(append([]byte(nil), h.Bytes...), trail...)
 		chName, chunks := c26Chunks(rng, len(h.Bytes))
-		replay := map[string]any{"case": ci, "header": h, "header_hex": hex.EncodeToString(h.Bytes), "trailing_len": len(trail), "trailing_hex_prefix": hex.EncodeToString(trail[:min(len(trail), 48)]), "chunking": chName, "chunks": chunks}
+		replay := map[string]any{"section": "valid", "case": ci, "header": h, "header_hex": hex.EncodeToString(h.Bytes), "trailing_len": len(trail), "trailing_hex_prefix": hex.EncodeToString(trail[:min(len(trail), 48)]), "chunking": chName, "chunks": chunks}
 		var conn net.Conn
 		var cleanup func()
 		viaPipe := rng.Intn(8) == 0
@@ -521,14 +542,16 @@ func c26Valid(r *verifkit.Run) {
 			r.Count("headers_split_across_reads", 1)
 		}
 		r.Case(verifkit.Hash(hex.EncodeToString(h.Bytes), len(trail), chName, chunks, viaPipe), split && len(trail) > 0 && streamChecked && addrOK)
-		if ci < 2 {
+		if ci < 2 || c26OnlyCase >= 0 {
 			r.Sample(replay)
 		}
 	}
-	r.Floor("address_reports_verified", 500)
-	r.Floor("trailing_streams_verified", 1000)
-	r.Floor("headers_split_across_reads", 500)
-	r.Floor("header_kinds", 12)
+	if c26OnlyCase < 0 {
+		r.Floor("address_reports_verified", 500)
+		r.Floor("trailing_streams_verified", 1000)
+		r.Floor("headers_split_across_reads", 500)
+		r.Floor("header_kinds", 12)
+	}
 }
 
 // ---------------------------------------------------------------------------
@@ -574,8 +597,11 @@ func c26Plain(rng *rand.Rand) (desc string, b []byte) {
 const c26RulePlain = "header-less connections: byte streams of >= 12 bytes that start neither with 'PROXY' nor with the 12-byte v2 signature (Kafka frames, streams sharing 1..11 leading bytes with the v2 signature or 1..4 with 'PROXY', lower-case 'proxy' lines, TLS/HTTP-looking bytes, random up to 13 KB), delivered in the same chunkings as leg valid. Oracle: ReadProxyProtocol returns nil info and nil error, and the wrapped conn yields exactly the original bytes. Shorter streams (1..11 bytes) are outside what the statement promises (a truncated signature is indistinguishable from a slow header): for them only 'no panic' and 'if the parser answered (nil,nil) the bytes are all still there' are judged; their outcomes are counted; non-trivial = near-miss prefix (>=1 shared signature byte) or stream delivered in more than one read"
 
 func c26PlainLeg(r *verifkit.Run) {
-	n := r.N(5000, 120000)
+	n := c26N("plain", r.N(5000, 120000))
 	for ci := 0; ci < n; ci++ {
+		if c26Skip("plain", ci) {
+			continue
+		}
 		rng := r.Rand(1000000 + ci)
 		desc, data := c26Plain(rng)
 		short := false
@@ -589,7 +615,7 @@ func c26PlainLeg(r *verifkit.Run) {
 		}
 		chName, chunks := c26Chunks(rng, min(len(data), 12))
 		conn := &c26Conn{data: data, chunks: chunks, eofWith: rng.Intn(3) == 0, failAt: -1}
-		replay := map[string]any{"case": ci, "desc": desc, "len": len(data), "hex_prefix": hex.EncodeToString(data[:min(len(data), 64)]), "chunking": chName, "chunks": chunks}
+		replay := map[string]any{"section": "plain", "case": ci, "desc": desc, "len": len(data), "hex_prefix": hex.EncodeToString(data[:min(len(data), 64)]), "chunking": chName, "chunks": chunks}
 		wrapped, info, err, pn := c26Call(conn)
 		if pn != nil {
 			r.Violation("panic_on_headerless_stream", fmt.Sprintf("ReadProxyProtocol panicked on %s: %v", desc, pn), replay)
@@ -634,12 +660,14 @@ func c26PlainLeg(r *verifkit.Run) {
 		}
 		r.Seen("plain_kinds", desc)
 		r.Case(verifkit.Hash(hex.EncodeToString(data[:min(len(data), 32)]), len(data), chName, chunks), ok && !short && (near || (len(chunks) > 0 && chunks[0] < len(data))))
-		if ci < 1 {
+		if ci < 1 || c26OnlyCase >= 0 {
 			r.Sample(replay)
 		}
 	}
-	r.Floor("streams_passed_through_verified", 1000)
-	r.Floor("near_miss_prefix_streams", 300)
+	if c26OnlyCase < 0 {
+		r.Floor("streams_passed_through_verified", 1000)
+		r.Floor("near_miss_prefix_streams", 300)
+	}
 }
 
 // ---------------------------------------------------------------------------
@@ -649,9 +677,12 @@ func c26PlainLeg(r *verifkit.Run) {
 const c26RuleFuzz = "arbitrary and hostile byte strings: valid headers mutated (bit flips, truncation at every length, length field set to 0/short/65535/longer than the data, version/command/family nibbles replaced, v1 lines without CRLF, over-long v1 lines, non-numeric ports, missing fields, NULs), pure random bytes with a signature glued in front, and transport errors (non-EOF) injected at a PRNG offset; each through a PRNG chunking. Oracle: ReadProxyProtocol and a following drain of the wrapped conn return (any value, any error) without panicking; the call must also terminate (the conn ends with EOF, so a parser that spins is caught by the go test timeout = broken, never silently). Outcomes are only counted; non-trivial = input that reached the v1 or v2 parser (starts with a signature)"
 
 func c26Fuzz(r *verifkit.Run) {
-	n := r.N(12000, 300000)
+	n := c26N("fuzz", r.N(12000, 300000))
 	boom := errors.New("harness: injected transport error")
 	for ci := 0; ci < n; ci++ {
+		if c26Skip("fuzz", ci) {
+			continue
+		}
 		rng := r.Rand(2000000 + ci)
 		var data []byte
 		var how string
@@ -729,7 +760,7 @@ func c26Fuzz(r *verifkit.Run) {
 			conn.failAt = rng.Intn(len(data) + 1)
 			conn.failErr = boom
 		}
-		replay := map[string]any{"case": ci, "how": how, "hex": hex.EncodeToString(data[:min(len(data), 400)]), "len": len(data), "chunks": chunks, "fail_at": conn.failAt}
+		replay := map[string]any{"section": "fuzz", "case": ci, "how": how, "hex": hex.EncodeToString(data[:min(len(data), 400)]), "len": len(data), "chunks": chunks, "fail_at": conn.failAt}
 		wrapped, info, err, pn := c26Call(conn)
 		if pn != nil {
 			r.Violation("panic_in_parser", fmt.Sprintf("ReadProxyProtocol panicked (%s): %v", how, pn), replay)
@@ -756,12 +787,14 @@ func c26Fuzz(r *verifkit.Run) {
 			r.Count("inputs_reaching_a_header_parser", 1)
 		}
 		r.Case(verifkit.Hash(hex.EncodeToString(data[:min(len(data), 64)]), len(data), chunks, conn.failAt), reached)
-		if ci < 1 {
+		if ci < 1 || c26OnlyCase >= 0 {
 			r.Sample(replay)
 		}
 	}
-	r.Floor("inputs_reaching_a_header_parser", 2000)
-	r.Floor("outcome_error", 500)
+	if c26OnlyCase < 0 {
+		r.Floor("inputs_reaching_a_header_parser", 2000)
+		r.Floor("outcome_error", 500)
+	}
 }
 
 func TestVerifC26(t *testing.T) {
@@ -771,6 +804,17 @@ func TestVerifC26(t *testing.T) {
 		"TLV type 0x03 (CRC32c) is not generated: a receiver may legitimately verify it",
 		"streams shorter than the 12-byte v2 signature: only no-panic and pass-through-if-accepted are judged (DESIGN.md C26)",
 		"outcome (info/error) of malformed input is not judged: the statement only promises no crash")
+	if rp := verifkit.Replay(); rp != nil {
+		inner, _ := rp["replay"].(map[string]any)
+		sec, _ := inner["section"].(string)
+		ci, okc := inner["case"].(float64)
+		seed, oks := rp["seed"].(float64)
+		if sec == "" || !okc || !oks {
+			t.Fatalf("VERIF_REPLAY: witness lacks replay.section / replay.case / seed")
+		}
+		c26OnlySection, c26OnlyCase, r.Seed = sec, int(ci), int64(seed)
+		r.Note("replayed", map[string]any{"section": sec, "case": int(ci), "seed": int64(seed)})
+	}
 	c26Valid(r)
 	c26PlainLeg(r)
 	c26Fuzz(r)
